@@ -1,8 +1,15 @@
 (* Interleavings of any number of producers with one consumer (Model/RingThreads.v):
    the inductive invariant.  Every statement is for an arbitrary list of producers and an
    arbitrary thread chosen at each step. *)
-Require Import V.Base.MachineInt V.Generated.GenConsts V.Model.LogBase V.Model.Ring V.Model.RingThreads
-               V.Spec.Fifo V.Proofs.RingArith V.Proofs.RingSeq V.Proofs.RingRender.
+Require Import V.Base.MachineInt.
+Require Import V.Generated.GenConsts.
+Require Import V.Model.LogBase.
+Require Import V.Model.Ring.
+Require Import V.Model.RingThreads.
+Require Import V.Spec.Fifo.
+Require Import V.Proofs.RingArith.
+Require Import V.Proofs.RingSeq.
+Require Import V.Proofs.RingRender.
 From Coq Require Import ZifyBool Lia.
 Open Scope Z_scope.
 
